@@ -260,3 +260,40 @@ Theorem extract_header_is_source : forall lines,
             = ROk (fst (find_header lines None 0%nat), i, snd (find_header lines None 0%nat)).
 Proof. exact extract_header_gen_is_source. Qed.
 Print Assumptions extract_header_is_source.
+
+(* the last-column-is-metadata test and the choice of sample ids / metadata name of the reader
+   (statements 6-9 of Table._extract_data_from_tsv for a list of lines), regenerated into
+   Gen/TsvRead2Gen.v: the same answer and the same TypeError / IndexError as the hand model for
+   every header value, data start and list of lines; isfloat is the float() oracle of the model *)
+From BiomV Require Import Gen.TsvRead2Gen Proofs.GenBridgeTsvRead2Proofs.
+Theorem extract_ids_is_source : forall parse_num lines header ds,
+  extract_ids (isfloat parse_num) lines [TAB] header ds =
+  let numeric := last_numeric parse_num (skipn ds lines) in
+  if numeric || Nat.eqb ds 0 then
+    match header with None => RErr E_TYPE | Some h => ROk (numeric, None, None, h) end
+  else
+    match header with
+    | None => RErr E_TYPE
+    | Some [] => RErr E_OTHER
+    | Some h => ROk (numeric, Some (last h []), Some [], removelast h)
+    end.
+Proof. exact extract_ids_gen_is_source. Qed.
+Print Assumptions extract_ids_is_source.
+(* and the hand-written extract_tsv is exactly: header search, the regenerated extract_ids, data_rows *)
+Theorem extract_tsv_is_source_around_data_rows : forall parse_num lines,
+  extract_tsv parse_num lines =
+  let '(header, ds) := find_header lines None 0%nat in
+  match extract_ids (isfloat parse_num) lines [TAB] header ds with
+  | RErr e => RErr e
+  | ROk (numeric, md_name, metadata, samp_ids) =>
+      match data_rows parse_num numeric (skipn ds lines) with
+      | RErr e => RErr e
+      | ROk rows =>
+          ROk (mkE samp_ids (map (fun r => fst (fst r)) rows)
+                   (all_triples 0 (map (fun r => snd (fst r)) rows))
+                   (if numeric then None else Some (map (fun r => snd r) rows))
+                   md_name)
+      end
+  end.
+Proof. exact extract_tsv_through_gen. Qed.
+Print Assumptions extract_tsv_is_source_around_data_rows.
